@@ -48,6 +48,7 @@ const (
 	OpNewEntityDup    // A=comp: NewEntity(c, c)
 	OpRelExchangeNone // A=slot, D=target: Relations.Exchange without components
 	OpNewBatchZero    // A=set, B=count (0 or -1)
+	OpNewBatchRel     // A=set, B=relation comp given to the builder, C=target slot: Builder.WithRelation(B).NewBatch(1, target)
 	numOps
 )
 
@@ -56,7 +57,7 @@ var opNames = [...]string{"none", "NewEntity", "NewEntityWith", "Builder.New", "
 	"Batch.RemoveEntities", "Batch.Add", "Batch.Remove", "Batch.Exchange", "Batch.SetRelation", "Relations.ExchangeBatch",
 	"Batch.AddQ", "Batch.RemoveQ", "Batch.ExchangeQ", "Batch.SetRelationQ", "Relations.ExchangeBatchQ",
 	"Cache.Register", "Cache.Unregister", "Reset", "Relations.Get", "Add2", "Remove2", "Add0", "Register(cached)", "NewEntity(dup)",
-	"Relations.Exchange(none)", "Builder.NewBatch(count<1)"}
+	"Relations.Exchange(none)", "Builder.NewBatch(count<1)", "Builder.WithRelation(x).NewBatch"}
 
 // Class is the expected outcome class of an operation.
 type Class uint8
@@ -70,10 +71,13 @@ const (
 
 // FSpec is a filter of the menu.
 type FSpec struct {
-	Name  string
-	Rel   bool // relation filter: takes a target
-	Match func(has uint8) bool
-	Build func(ids []ecs.ID) ecs.Filter // component part
+	Name string
+	Rel  bool // relation filter: takes a target
+	// SelfOnly: which entities such a filter selects is not specified (a relation filter whose component part does not
+	// require the relation component); only the agreement of Count/EntityAt/Next/Step among themselves is checked.
+	SelfOnly bool
+	Match    func(has uint8) bool
+	Build    func(ids []ecs.ID) ecs.Filter // component part
 }
 
 // MEnt is the model of one entity handle.
@@ -466,6 +470,9 @@ func (m *Model) Step(op wx.Op) Expect {
 	case OpNewBatchZero:
 		comps := m.cfg.Sets[op.A]
 		return set(m.create(int(op.B), comps, -1, -2, uint64s{}))
+	case OpNewBatchRel:
+		comps := m.cfg.Sets[op.A]
+		return set(m.create(1, comps, int(op.B), op.C, uint64s{}))
 	case OpRemoveEntity:
 		e := &m.Slots[op.A]
 		if !e.Alive {
